@@ -73,8 +73,9 @@ def history(nops, nres, k, preempt):
         used_o, used_r = 0, 0
         trace = []
         for i in range(k):
-            # symmetry breaking: the first use of an operation / resource takes the least unused index
-            cand_o = [o for j, o in enumerate(OPS) if j <= used_o and o in live]
+            # symmetry breaking on RESOURCES only (first use takes the least unused index). Operations are NOT
+            # interchangeable: the code under test sorts / iterates operation ids, so every id assignment is explored
+            cand_o = [o for o in OPS if o in live]
             acts = []
             for o in cand_o:
                 for j, r in enumerate(RES):
@@ -145,6 +146,8 @@ def history(nops, nres, k, preempt):
             c.check("C15.a-phantom", (rep is None) or cyc, {"what": "deadlock reported without a real wait-for cycle (phantom)",
                                                              "reported": rep.agents if rep else None, **info})
             if rep is not None:
+                oc = on_cycle_nodes(E)
+                c.check("C15.b-members", all(a in oc for a in rep.agents), {"what": "reported cycle contains an operation that is not on any real wait-for cycle", "reported": rep.agents, **info})
                 c.check("C15.b-live", all(a in live for a in rep.agents), {"what": "reported cycle contains an ended operation", "reported": rep.agents, **info})
                 c.check("C15.b-edges", all(e in E for e in rep.cycle) and len(rep.cycle) == len(rep.agents),
                         {"what": "reported edge is not a real wait-for edge", "reported": rep.cycle, **info})
@@ -165,12 +168,12 @@ HARNESSES = {
                                       [{"nops": 2, "nres": 3, "k": 8, "preempt": [False]}, {"nops": 3, "nres": 3, "k": 6, "preempt": [False]},
                                        {"nops": 3, "nres": 2, "k": 7, "preempt": [True]}, {"nops": 2, "nres": 3, "k": 7, "preempt": [True, False]},
                                        {"nops": 3, "nres": 3, "k": 6, "preempt": [False, True, True]}]),
-                "clauses": ["C15.a-missed", "C15.a-phantom", "C15.b-live", "C15.b-edges", "C15.c", "C15.c-lowest", "C15.c-owns", "C15.c-gone"]},
+                "clauses": ["C15.a-missed", "C15.a-phantom", "C15.b-live", "C15.b-edges", "C15.b-members", "C15.c", "C15.c-lowest", "C15.c-owns", "C15.c-gone"]},
 }
 
 META = {
     "manifest": {
-        "text": "Bounded symbolic model checking of the implementation: every history (up to k calls, symmetry-broken) of acquire/release/complete/abort/watchdog.execute over 2-3 operations and 2-3 resources is run through the real CellCycleController/DependencyGraph/Watchdog, with symbolic priorities, and after every call check_deadlock() is compared with a reference wait-for graph recomputed from the history and the current lock owners. Exhaustive within the bound; z3 decides the priority comparisons (preemption, victim selection).",
+        "text": "Bounded symbolic model checking of the implementation: every history (up to k calls; symmetry-broken on resource names only, because the implementation orders operation ids) of acquire/release/complete/abort/watchdog.execute over 2-3 operations and 2-3 resources is run through the real CellCycleController/DependencyGraph/Watchdog, with symbolic priorities, and after every call check_deadlock() is compared with a reference wait-for graph recomputed from the history and the current lock owners. Exhaustive within the bound; z3 decides the priority comparisons (preemption, victim selection).",
         "note": "Trusted: z3, CPython, SymX, the reference definition of 'currently blocked' (latest request for r returned BLOCKED, not since acquired, operation alive; edge to the CURRENT owner). Mostly discrete: solver share is the priority arithmetic.",
         "technique": "exhaustive symbolic-choice histories through controller.py/types.py/watchdog.py vs reference wait-for graph; symbolic priorities via z3",
     },
